@@ -54,6 +54,10 @@ func runDialScenario(t *testing.T, sc dialScen, delay, timeout int) (evs []Ev, c
 	defer func() {
 		if r := recover(); r != nil {
 			crash = fmt.Sprint(r)
+			if os.Getenv("VH_DUMP") != "" {
+				buf := make([]byte, 1<<20)
+				crash += "\n" + string(buf[:runtime.Stack(buf, true)])
+			}
 		}
 	}()
 	synctest.Test(t, func(t *testing.T) {
@@ -108,6 +112,11 @@ func runDialScenario(t *testing.T, sc dialScen, delay, timeout int) (evs []Ev, c
 				case <-tm.C:
 					return nil, &tls.ECHRejectionError{RetryConfigList: []byte{0, 1, 0}}
 				}
+			}
+			if o.Kind == "stub" { // a DialFunc that ignores its context and succeeds late
+				time.Sleep(time.Duration(o.D) * dialUnit)
+				log(Ev{"e": "end", "i": i, "r": "stub"})
+				return &dialConn{i: i, log: log}, nil
 			}
 			if o.Kind == "hang" {
 				<-ctx.Done()
@@ -181,6 +190,14 @@ func runDialScenario(t *testing.T, sc dialScen, delay, timeout int) (evs []Ev, c
 			log(Ev{"e": "ret", "r": "joined", "nerr": n})
 		}
 		synctest.Wait()
+		// attempts that ignore their context run to their end (virtual time stops once this function returns); then nothing may be left
+		for _, o := range sc.Oc {
+			if o.Kind == "stub" { // only a DialFunc that ignores its context can still be running here
+				time.Sleep(80 * dialUnit)
+				synctest.Wait()
+				break
+			}
+		}
 		buf := make([]byte, 1<<20)
 		n := runtime.Stack(buf, true)
 		g := strings.Count(string(buf[:n]), "ech.(*Dialer")
